@@ -18,36 +18,36 @@ import (
 
 // Opts describes one TLC run.
 type Opts struct {
-	SpecDir  string            // directory holding the .tla/.cfg files
-	Module   string            // module name (without .tla)
-	Cfg      string            // config file name
-	Scratch  string            // parent scratch directory (a fresh subdirectory is made)
-	Workers  int               // default 1
-	Simulate string            // e.g. "num=500" ; empty = BFS model checking
-	Depth    int               // -depth for simulation
-	Seed     int64             // -seed (0 = not passed)
-	Coverage bool              // -coverage 1
-	DFS      bool              // StateDeque queue (depth-first) for branching trace specs
-	Timeout  time.Duration     // hard wall limit
-	Files    map[string][]byte // extra files written next to the spec (traces, data)
-	Xss      string            // e.g. "512m"
-	NoDeadlock bool            // pass -deadlock (disable deadlock checking)
+	SpecDir    string            // directory holding the .tla/.cfg files
+	Module     string            // module name (without .tla)
+	Cfg        string            // config file name
+	Scratch    string            // parent scratch directory (a fresh subdirectory is made)
+	Workers    int               // default 1
+	Simulate   string            // e.g. "num=500" ; empty = BFS model checking
+	Depth      int               // -depth for simulation
+	Seed       int64             // -seed (0 = not passed)
+	Coverage   bool              // -coverage 1
+	DFS        bool              // StateDeque queue (depth-first) for branching trace specs
+	Timeout    time.Duration     // hard wall limit
+	Files      map[string][]byte // extra files written next to the spec (traces, data)
+	Xss        string            // e.g. "512m"
+	NoDeadlock bool              // pass -deadlock (disable deadlock checking)
 }
 
 // Result is the parsed outcome of a TLC run.
 type Result struct {
-	OK          bool // finished, no error, no violation
-	Generated   int64
-	Distinct    int64
-	Depth       int
-	Printed     []string         // PrintT'ed strings (unquoted)
-	Coverage    map[string]int64 // action name -> total count (with -coverage)
-	Violation   string           // name of a violated invariant/property/postcondition, if any
-	TimedOut    bool
-	ErrText     string // first error block
-	Raw         string
-	Wall        time.Duration
-	Dir         string
+	OK        bool // finished, no error, no violation
+	Generated int64
+	Distinct  int64
+	Depth     int
+	Printed   []string         // PrintT'ed strings (unquoted)
+	Coverage  map[string]int64 // action name -> total count (with -coverage)
+	Violation string           // name of a violated invariant/property/postcondition, if any
+	TimedOut  bool
+	ErrText   string // first error block
+	Raw       string
+	Wall      time.Duration
+	Dir       string
 }
 
 var (
